@@ -413,9 +413,31 @@ macro_rules! backend_impl {
                     dnum: Dnum(2),
                     dsize: Dsize(1),
                 };
-                let mut inputs: FheUintPrepared<DeviceBuf<BE>, u8, BE> = FheUintPrepared::alloc_from_infos(&module, &ggsw_infos);
-                let enc = EncryptionLayout::new_from_default_sigma(ggsw_infos).unwrap();
-                inputs.encrypt_sk(&module, 0xA6u8, &sk_prep, &enc, &mut source_xe, &mut source_xa, scratch.borrow());
+                // Encrypted bytes and prepared evaluation keys need a ring of at least 8 coefficients (FFT64 vmp asserts
+                // n >= 8). For the tiny rings (N = 4, whose limbs are not multiples of the 64-byte scratch alignment) these
+                // shared objects live in a ring of degree 8 of their own: the ops that would combine them with this
+                // context's module reject the shape, the vmp-free ops (LWE, plain vector ops) run at N = 4.
+                let an: u32 = n.max(8);
+                let aux_module: Option<Module<BE>> = if n < 8 { Some(Module::<BE>::new(8)) } else { None };
+                let am: &Module<BE> = aux_module.as_ref().unwrap_or(&module);
+                let aux_sk: Option<(GLWESecret<Vec<u8>>, GLWESecretPrepared<DeviceBuf<BE>, BE>)> = if n < 8 {
+                    let mut sk8: GLWESecret<Vec<u8>> = GLWESecret::alloc(Degree(8), Rank(rank));
+                    sk8.fill_ternary_prob(0.5, &mut source_xs);
+                    let mut sk8_prep: GLWESecretPrepared<DeviceBuf<BE>, BE> = am.glwe_secret_prepared_alloc(Rank(rank));
+                    am.glwe_secret_prepare(&mut sk8_prep, &sk8);
+                    Some((sk8, sk8_prep))
+                } else {
+                    None
+                };
+                let (ask, ask_prep) = match &aux_sk {
+                    Some((a, b)) => (a, b),
+                    None => (&sk_glwe, &sk_prep),
+                };
+                let mut ainfos = ggsw_infos;
+                ainfos.n = Degree(an);
+                let mut inputs: FheUintPrepared<DeviceBuf<BE>, u8, BE> = FheUintPrepared::alloc_from_infos(am, &ainfos);
+                let enc = EncryptionLayout::new_from_default_sigma(ainfos).unwrap();
+                inputs.encrypt_sk(am, 0xA6u8, ask_prep, &enc, &mut source_xe, &mut source_xa, scratch.borrow());
                 let genc = EncryptionLayout::new_from_default_sigma(glwe_infos).unwrap();
                 let mut ct_a: GLWE<Vec<u8>> = GLWE::alloc_from_infos(&glwe_infos);
                 let mut ct_b: GLWE<Vec<u8>> = GLWE::alloc_from_infos(&glwe_infos);
@@ -432,7 +454,7 @@ macro_rules! backend_impl {
                     };
                     use poulpy_core::{GLWEAutomorphismKeyEncryptSk, GLWESwitchingKeyEncryptSk};
                     let ksk_infos = GLWESwitchingKeyLayout {
-                        n: Degree(n),
+                        n: Degree(an),
                         base2k: Base2K(12),
                         k: TorusPrecision(38),
                         dnum: Dnum(3),
@@ -442,11 +464,11 @@ macro_rules! backend_impl {
                     };
                     let mut ksk: GLWESwitchingKey<Vec<u8>> = GLWESwitchingKey::alloc_from_infos(&ksk_infos);
                     let kenc = EncryptionLayout::new_from_default_sigma(ksk_infos).unwrap();
-                    module.glwe_switching_key_encrypt_sk(&mut ksk, &sk_glwe, &sk_glwe, &kenc, &mut source_xe, &mut source_xa, scratch.borrow());
-                    let mut kp = module.glwe_switching_key_prepared_alloc_from_infos(&ksk);
-                    module.glwe_switching_key_prepare(&mut kp, &ksk, scratch.borrow());
+                    am.glwe_switching_key_encrypt_sk(&mut ksk, ask, ask, &kenc, &mut source_xe, &mut source_xa, scratch.borrow());
+                    let mut kp = am.glwe_switching_key_prepared_alloc_from_infos(&ksk);
+                    am.glwe_switching_key_prepare(&mut kp, &ksk, scratch.borrow());
                     let atk_infos = GLWEAutomorphismKeyLayout {
-                        n: Degree(n),
+                        n: Degree(an),
                         base2k: Base2K(12),
                         k: TorusPrecision(38),
                         rank: Rank(rank),
@@ -455,9 +477,9 @@ macro_rules! backend_impl {
                     };
                     let mut atk: GLWEAutomorphismKey<Vec<u8>> = GLWEAutomorphismKey::alloc_from_infos(&atk_infos);
                     let aenc = EncryptionLayout::new_from_default_sigma(atk_infos).unwrap();
-                    module.glwe_automorphism_key_encrypt_sk(&mut atk, 5, &sk_glwe, &aenc, &mut source_xe, &mut source_xa, scratch.borrow());
-                    let mut ap = module.glwe_automorphism_key_prepared_alloc_from_infos(&atk);
-                    module.glwe_automorphism_key_prepare(&mut ap, &atk, scratch.borrow());
+                    am.glwe_automorphism_key_encrypt_sk(&mut atk, 5, ask, &aenc, &mut source_xe, &mut source_xa, scratch.borrow());
+                    let mut ap = am.glwe_automorphism_key_prepared_alloc_from_infos(&atk);
+                    am.glwe_automorphism_key_prepare(&mut ap, &atk, scratch.borrow());
                     (kp, ap)
                 };
                 let c: &'static Ctx = Box::leak(Box::new(Ctx {
